@@ -248,7 +248,7 @@ def run(ctx):
                        'its kids relation is "after pruning"']
     drv = common.Driver()
     try:
-        for i in range(250 if ctx.tier == 'quick' else 6000):
+        for i in range(800 if ctx.tier == 'quick' else 6000):
             one(ctx, drv)
     finally:
         drv.close()
